@@ -1,4 +1,5 @@
 import SvModel.Core.Pp
+import SvModel.Gen.PpKinds
 /-!
 # C10 / C11 / C09 / C18 — decision logic of the walker, stated outright
 
@@ -111,5 +112,34 @@ theorem C18_comment_emit (text : Bytes) :
   constructor
   · by_cases h : text.getLast? = some 10 <;> simp [h]
   · simp
+
+
+/-! ## C10 on the walker model: ignore_include and IncludeLine -/
+section
+open Sv.Gen
+
+
+/-- **with ignore_include an `include directive has no effect and reads no file**: on entering an `IncludeCompilerDirective` node the
+    walker state is returned unchanged and neither recursive callee is consulted (the result does not depend on them) — every node
+    of that kind, every state, every file system -/
+theorem C10_ignore_include_inert (fs : Fs) (incs : List Bytes) (recI recI') (recU recU') (inp : Input) (s path : Bytes) (sc : Bool) (rd id : Nat)
+    (w : WState) (k : Nat) (ks : List Tree) (hk : k % 2048 = ppKinds.includeDirective) :
+    enterStep ⟨ppKinds, grammar, fs, incs⟩ recI recU inp s path true sc rd id w (.node k ks) = .ok w ∧
+    enterStep ⟨ppKinds, grammar, fs, incs⟩ recI' recU' inp s path true sc rd id w (.node k ks) = .ok w := by
+  have hb : (Tree.node k ks).baseKind = 190 := by simpa [Tree.baseKind, Tree.kind, ppKinds] using hk
+  have hkind : (Tree.node k ks).kind = k := rfl
+  have h1 : k ≠ 4310 := by intro h; subst h; simp [ppKinds] at hk
+  have h2 : k ≠ 10454 := by intro h; subst h; simp [ppKinds] at hk
+  constructor <;> simp [enterStep, hb, hkind, ppKinds, h1, h2]
+
+/-- **IncludeLine**: an `include that stands on the line on which the previous item ended is rejected -/
+theorem C10_include_line (C : Cfg) (recI) (recU) (inp : Input) (s path : Bytes) (ii sc : Bool) (rd id : Nat) (w : WState) (x : Tree)
+    (o l line : Nat) (hl : locOf x = some (o, l, line)) (h : w.lastItemLine = some line) :
+    armInclude C recI recU inp s path ii sc rd id w x = .error .includeLine := by
+  unfold armInclude
+  simp [hl, WState.skipPush, h]
+  split <;> simp [h]
+
+end
 
 end Sv
